@@ -2,6 +2,7 @@ import DracoProofs.QuantExact
 import DracoProofs.QuantFloat
 import DracoProofs.QuantPipeline
 import DracoProofs.QuantOracles
+import DracoProofs.QuantGrid
 import DracoProps.C04
 /-
   C12 — explicit quantization.
@@ -24,6 +25,18 @@ import DracoProps.C04
                              x = 0x3aa33f2e, min = 0x3a6585a5, range = 0x39c1f16e, bits = 23
                              gives k = 8388608 = 2^23; reproduced by the C++ driver.)
   * `decodeParameters_encodeParameters_roundtrip`  the 4·n+5 byte parameter record round-trips.
+
+  Exactly what holds for `k ≤ 2^bits-1` (slice c08plus):
+  * relative-error model (`RoundingModel`, `u = 2^-24`): true for `bits ≤ 20`
+    (`on_grid_float_partial`), false at `bits = 21` (`quantized_exceeds_max_witness_21`): the
+    hypothesis `16·(2^bits-1)·u ≤ 1` is sharp for that model.
+  * grid model (`GridModel`: one monotone rounding function with relative error `2^-24` that is
+    exact on `n/2^j`, `|n| ≤ 2^24` — binary32 without exponent limits): true for `bits ≤ 22`
+    (`on_grid_float_grid`).
+  * the real library: no counterexample for `bits ≤ 22` in 9·10^5 upper-corner samples, and
+    `k = 2^bits` from `bits = 23` on; simplest instance origin 0, range 0.1f, x = 0.1f,
+    bits 23: `qattr 23 1 1036831949 1036831949 0` → k = 8388608, decoded 0x3dcccccf = 0.1f + 2 ulp
+    (C++ harness and `Float32` model agree; the case is part of the C04 check).
 -/
 namespace Draco
 namespace Quant
@@ -133,6 +146,48 @@ theorem quantized_exceeds_max_witness :
     rw [Int.le_floor]; norm_num
   omega
 
+/-- Sharpness of the hypothesis of `on_grid_float_partial` in the relative-error model: the
+    oracle that biases every operation (also `int → float`) by `1 + 2^-24` maps the upper box
+    corner to `k = 2^21 > 2^21 - 1` already at `bits = 21`; at `bits = 20` the theorem applies
+    (`16·(2^20-1)·2^-24 < 1`). -/
+theorem quantized_exceeds_max_witness_21 :
+    RoundingModel (biasedAllOps (1/2^24)) (1/2^24) ∧
+    (2:Int)^21 - 1 < @quantize ℚ (biasedAllOps (1/2^24)) ⟨[0], 1⟩ 21 0 1 ∧
+    16 * ((2:ℚ)^20 - 1) * (1/2^24) ≤ 1 := by
+  refine ⟨biasedAllOps_model _ _ (by norm_num [abs_of_pos]), ?_, by norm_num⟩
+  have h : @quantize ℚ (biasedAllOps (1/2^24)) ⟨[0], 1⟩ 21 0 1
+      = ⌊((((1:ℚ) - 0) * (1 + 1/2^24)) *
+            ((((((2:Int)^21 - 1 : Int) : ℚ) * (1 + 1/2^24)) / 1) * (1 + 1/2^24))
+            * (1 + 1/2^24) + 1/2) * (1 + 1/2^24)⌋ := rfl
+  rw [h]
+  have : ((2:Int)^21 : Int) ≤ ⌊((((1:ℚ) - 0) * (1 + 1/2^24)) *
+      ((((((2:Int)^21 - 1 : Int) : ℚ) * (1 + 1/2^24)) / 1) * (1 + 1/2^24)) * (1 + 1/2^24) + 1/2)
+        * (1 + 1/2^24)⌋ := by
+    rw [Int.le_floor]; norm_num
+  omega
+
+/-- Grid model (see `DracoProofs.QuantGrid`): every operation is the exact result followed by
+    one monotone rounding `rnd` with relative error `u ≤ 2^-24` that leaves the binary32 numbers
+    `n/2^j`, `|n| ≤ 2^24`, unchanged.  For a representable range, `x` inside the box and
+    `bits ≤ 22` the quantized value satisfies `0 ≤ k ≤ 2^bits-1`, so the decoded value is the
+    grid point `dequantize k` of the box.  (`bits = 23` fails on the real library.) -/
+theorem on_grid_float_grid (ops : FloatOps ℚ) (rnd : ℚ → ℚ) (u : ℚ) (hu0 : 0 ≤ u)
+    (hu : u ≤ 1/2^24) (hg : GridModel ops rnd u) (p : QParams ℚ) (bits c : Nat) (x : ℚ)
+    (hq : 1 ≤ bits) (hq22 : bits ≤ 22) (hR : 0 < p.range) (hRrep : rnd p.range = p.range)
+    (h1 : @minOf ℚ ops p c ≤ x) (h2 : x ≤ @minOf ℚ ops p c + p.range) :
+    ∃ k : Int, 0 ≤ k ∧ k ≤ 2^bits - 1 ∧
+      @dequantize ℚ ops p bits c (@quantize ℚ ops p bits c x) = @dequantize ℚ ops p bits c k := by
+  obtain ⟨a, b⟩ := grid_quantize_range ops hg hu0 hu p bits c x hq hq22 hR hRrep h1 h2
+  exact ⟨_, a, b, rfl⟩
+
+/-- non-vacuity: the exact instance is a grid model (`rnd = id`); 22 bits, origin 1/3 -/
+example : ∃ k : Int, 0 ≤ k ∧ k ≤ 2^22 - 1 ∧
+    @dequantize ℚ exactOps ⟨[1/3], 7/2⟩ 22 0 (@quantize ℚ exactOps ⟨[1/3], 7/2⟩ 22 0 2)
+      = @dequantize ℚ exactOps ⟨[1/3], 7/2⟩ 22 0 k :=
+  on_grid_float_grid exactOps id 0 (by norm_num) (by norm_num) exactOps_grid ⟨[1/3], 7/2⟩ 22 0 2
+    (by norm_num) (by norm_num) (by show (0:ℚ) < 7/2; norm_num) rfl
+    (by show (1/3 : ℚ) ≤ 2; norm_num) (by show (2:ℚ) ≤ 1/3 + 7/2; norm_num)
+
 /-- `EncodeParameters` / `DecodeParameters` round trip (composable form, hence also
     self-delimiting), for every instance whose `float ↔ bits` conversion round-trips. -/
 theorem decodeParameters_encodeParameters_roundtrip {F : Type} [FloatOps F]
@@ -141,6 +196,17 @@ theorem decodeParameters_encodeParameters_roundtrip {F : Type} [FloatOps F]
     decodeParameters (F := F) p.minValues.length (encodeParameters p q ++ rest)
       = some ((p, q), rest) :=
   decodeParameters_encodeParameters hb p q hq1 hq2 rest
+
+/-- non-vacuity: the bit-pattern instance (`float ↔ bits` is the identity on 32-bit words);
+    origin (0.1f, -2.0f), range 0.1f, 23 bits, followed by two more bytes -/
+example : @decodeParameters (Fin (2^32)) bitsOps 2
+    (@encodeParameters (Fin (2^32)) bitsOps
+      ⟨[⟨0x3dcccccd, by decide⟩, ⟨0xc0000000, by decide⟩], ⟨0x3dcccccd, by decide⟩⟩ 23 ++ [7, 9])
+    = some ((⟨[⟨0x3dcccccd, by decide⟩, ⟨0xc0000000, by decide⟩], ⟨0x3dcccccd, by decide⟩⟩, 23),
+        [7, 9]) :=
+  @decodeParameters_encodeParameters_roundtrip (Fin (2^32)) bitsOps bitsOps_roundtrip
+    ⟨[⟨0x3dcccccd, by decide⟩, ⟨0xc0000000, by decide⟩], ⟨0x3dcccccd, by decide⟩⟩ 23
+    (by decide) (by decide) [7, 9]
 
 end Quant
 end Draco
